@@ -449,8 +449,21 @@ pub fn run(pid: &'static str, ctx: &Ctx, rep: &mut Report) {
         let md = rep.counters.entry("max_depth_reached".into()).or_insert(0);
         *md = (*md).max(checker.max_depth() as u64);
         if rep.samples.len() < 3 {
+            // an actual element of the explored space: follow the last enabled action at every depth
+            let mut st: Vec<u8> = Vec::new();
+            loop {
+                let mut acts = Vec::new();
+                checker.model().actions(&st, &mut acts);
+                if acts.is_empty() {
+                    break;
+                }
+                // a varying pick so that the sample mixes constructions, conversions, clones and drops
+                let pick = [1usize, 4, 2, 0, 3, 5, 1][st.len() % 7] * acts.len() / 6;
+                st.push(acts[pick.min(acts.len() - 1)]);
+            }
+            let example: Vec<String> = st.iter().map(|&b| Act::decode(b).describe()).collect();
             rep.sample(json!({"family":label,"depth_bound":depth,"keys":nkeys,"kinds": if triple {"Full/Enc/Dec"} else {"Full"},"histories":states,
-                "example_history":["slot <- Enc::new(k0)","slot <- Dec::from(&slot0)","slot <- slot1.clone()","drop(slot0)"],
+                "example_history":example,
                 "check": if calls {"every call's result equals the reference for (key, input); survivors re-probed at the end"} else {"after every step every live instance is probed with 6 operations against the reference"}}));
         }
         for (_name, path) in checker.discoveries() {
